@@ -536,31 +536,67 @@ pub fn build_synth(seed: u64) -> Option<SynthArena> {
     let arena = arena?;
     arena.fill(0xCC);
     let mut slots = Vec::new();
-    let mut put = |addr: usize, id: u32, is_bool: bool, slot: usize, rng: &mut Rng| {
+    fn put_fn(arena: &Arena, slots: &mut Vec<(usize, u32, bool)>, addr: usize, id: u32, is_bool: bool, slot: usize, rng: &mut Rng) {
         let mut code = code_ret_const(id, 6, 0);
         while code.len() < slot {
             code.push(rng.below(256) as u8);
         }
         arena.write(addr, &code);
         slots.push((addr, id, is_bool));
-    };
+    }
+    macro_rules! put {
+        ($addr:expr, $id:expr, $b:expr, $slot:expr, $rng:expr) => {
+            put_fn(&arena, &mut slots, $addr, $id, $b, $slot, $rng)
+        };
+    }
     // 64 packed functions
     for i in 0..64usize {
         let addr = base + 0x800 + 16 * i;
         let is_bool = i % 8 == 7;
         let id = if is_bool { (i as u32 / 8) % 2 } else { 0x2000 + i as u32 };
-        put(addr, id, is_bool, 16, &mut rng);
+        put!(addr, id, is_bool, 16, &mut rng);
     }
     // one function whose 5 patch bytes straddle the page boundary (3 bytes before, 2 after), one that
     // ends exactly at the boundary, one that starts exactly at it
-    put(base + PAGE - 3, 0x2100, false, 8, &mut rng);
-    put(base + PAGE - 32, 0x2101, false, 8, &mut rng);
-    put(base + PAGE - 16 - 5, 0x2102, false, 5 + 1, &mut rng);
-    put(base + PAGE + 16, 0x2103, false, 16, &mut rng);
+    put!(base + PAGE - 3, 0x2100, false, 8, &mut rng);
+    put!(base + PAGE - 32, 0x2101, false, 8, &mut rng);
+    put!(base + PAGE - 16 - 5, 0x2102, false, 5 + 1, &mut rng);
+    put!(base + PAGE + 16, 0x2103, false, 16, &mut rng);
+    // functions that START with a jump (forwarders / import stubs): faking them must patch THEM, not the
+    // function behind the jump. Each forwards to an untouched neighbour of the packed block.
+    let n1 = base + 0x800 + 16 * 3; // neighbour slot 3  (id 0x2003)
+    let n2 = base + 0x800 + 16 * 11; // neighbour slot 11 (id 0x200b)
+    let n3 = base + 0x800 + 16 * 19; // neighbour slot 19 (id 0x2013)
+    {
+        // jmp [rip+0] ; .quad n1      (the shape of a PLT / import stub)
+        let a = base + PAGE + 0x100;
+        let mut code = vec![0xFF, 0x25, 0, 0, 0, 0];
+        code.extend_from_slice(&(n1 as u64).to_le_bytes());
+        code.extend_from_slice(&[0xCC, 0xCC]);
+        arena.write(a, &code);
+        slots.push((a, 0x2003, false));
+        // jmp rel32 n2
+        let a = base + PAGE + 0x120;
+        let rel = (n2 as i64 - (a as i64 + 5)) as i32;
+        let mut code = vec![0xE9];
+        code.extend_from_slice(&rel.to_le_bytes());
+        code.extend_from_slice(&[0xCC; 11]);
+        arena.write(a, &code);
+        slots.push((a, 0x200b, false));
+        // jmp rel8 to a jmp rel32 n3 placed 16 bytes further (two hops)
+        let a = base + PAGE + 0x140;
+        arena.write(a, &[0xEB, 14, 0xCC, 0xCC, 0xCC, 0xCC, 0xCC, 0xCC, 0xCC, 0xCC, 0xCC, 0xCC, 0xCC, 0xCC, 0xCC, 0xCC]);
+        let b = a + 16;
+        let rel = (n3 as i64 - (b as i64 + 5)) as i32;
+        let mut code = vec![0xE9];
+        code.extend_from_slice(&rel.to_le_bytes());
+        arena.write(b, &code);
+        slots.push((a, 0x2013, false));
+    }
     // last 16 bytes of the mapping
-    put(base + 2 * PAGE - 16, 0x2200, false, 16, &mut rng);
+    put!(base + 2 * PAGE - 16, 0x2200, false, 16, &mut rng);
     // first bytes of the mapping
-    put(base, 0x2201, false, 16, &mut rng);
+    put!(base, 0x2201, false, 16, &mut rng);
     arena.protect_all(RX);
     Some(SynthArena { arena, slots })
 }
@@ -575,10 +611,19 @@ pub struct Pool {
 static THE_S: S = S { k: 4 };
 
 pub fn build_pool(seed: u64) -> Pool {
+    build_pool_ex(seed, false)
+}
+
+/// `nosynth`: leave the synthetic arena functions out (under valgrind the client address space is
+/// managed by valgrind, which does not honour mmap hints next to arbitrary arenas)
+pub fn build_pool_ex(seed: u64, nosynth: bool) -> Pool {
     let synth = build_synth(seed).expect("synthetic arena");
     let mut targets: Vec<Target> = Vec::new();
     let mut neighbours = Vec::new();
     for (i, &(addr, id, is_bool)) in synth.slots.iter().enumerate() {
+        if nosynth {
+            break;
+        }
         // in the packed block: slots 3 mod 4 stay untouched neighbours; everything else is a target
         if i < 64 && i % 4 == 3 && !is_bool {
             neighbours.push((addr, id));
